@@ -210,8 +210,9 @@ decode_tag_internal(ev_uint32_t *ptag, struct evbuffer *evbuf, int dodrain)
 	 * the encoding of a number is at most one byte more than its
 	 * storage size.  however, it may also be much smaller.
 	 */
-	data = evbuffer_pullup(
-		evbuf, len < sizeof(number) + 1 ? len : sizeof(number) + 1);
+	if (len > sizeof(number) + 1)
+		len = sizeof(number) + 1;
+	data = evbuffer_pullup(evbuf, len);
 	if (!data)
 		return (-1);
 
